@@ -19,6 +19,9 @@ def chars(s):
     return list(s)
 
 
+ALIAS_SPELLING = True
+
+
 def unchars(c):
     return "".join(c)
 
@@ -170,7 +173,13 @@ async def run_history(w: NsWorld, steps, events):
             ev["tree"] = w.tree()
             events.append(ev)
             continue
-        n1 = render_name(unchars(st.get("name", [])), st.get("enc", "quoted"))
+        nm1 = unchars(st.get("name", []))
+        # every fourth namespace command (every second RENAME) spells its (first) mailbox name with the one leading "/" that the
+        # server tolerates and ignores: the same mailbox, so the model's step is the same
+        if ALIAS_SPELLING and act in ("Create", "Delete", "Rename", "Subscribe", "Unsubscribe") and nm1 \
+                and not nm1.startswith("/") and len(events) % (2 if act == "Rename" else 4) == 1:
+            nm1 = "/" + nm1
+        n1 = render_name(nm1, st.get("enc", "quoted"))
         n2 = render_name(unchars(st.get("name2", [])), st.get("enc", "quoted"))
         cmd = {"Create": b"CREATE " + n1, "Delete": b"DELETE " + n1, "Rename": b"RENAME " + n1 + b" " + n2,
                "Subscribe": b"SUBSCRIBE " + n1, "Unsubscribe": b"UNSUBSCRIBE " + n1}.get(act)
